@@ -82,6 +82,16 @@ fn ord(i: usize) -> Ordering {
     [Ordering::Relaxed, Ordering::SeqCst, Ordering::Relaxed][i % 3]
 }
 
+/// Every ordering is legal for a read-modify-write (set, swap).
+fn ord_rmw(i: usize) -> Ordering {
+    [Ordering::Relaxed, Ordering::SeqCst, Ordering::Release, Ordering::AcqRel, Ordering::Acquire][i % 5]
+}
+
+/// The orderings that are legal for a load (get).
+fn ord_load(i: usize) -> Ordering {
+    [Ordering::Relaxed, Ordering::SeqCst, Ordering::Acquire][i % 3]
+}
+
 fn decode(u: &mut Unstructured, cap: usize) -> (Init, Vec<Op>) {
     let init = match u.int_in_range(0u8..=10).unwrap_or(0) {
         0 => Init::New(len_class(u, cap)),
@@ -478,8 +488,8 @@ impl Property for C06 {
                         match &mut sut {
                             Sut::V(v) => cx.must("set", || v.set(i, *b))?,
                             Sut::B(v) => cx.must("set", || v.set(i, *b))?,
-                            Sut::A(v) => cx.must("atomic.set", || v.set(i, *b, ord(k)))?,
-                            Sut::AB(v) => cx.must("atomic.set", || v.set(i, *b, ord(k)))?,
+                            Sut::A(v) => cx.must("atomic.set", || v.set(i, *b, ord_rmw(k)))?,
+                            Sut::AB(v) => cx.must("atomic.set", || v.set(i, *b, ord_rmw(k)))?,
                             Sut::Gone => unreachable!(),
                         }
                         model[i] = *b;
@@ -490,8 +500,8 @@ impl Property for C06 {
                         let i = sel * len >> 16;
                         // swap exists on the atomic forms only
                         let old = match &mut sut {
-                            Sut::A(v) => Some(cx.must("atomic.swap", || v.swap(i, *b, ord(k)))?),
-                            Sut::AB(v) => Some(cx.must("atomic.swap", || v.swap(i, *b, ord(k)))?),
+                            Sut::A(v) => Some(cx.must("atomic.swap", || v.swap(i, *b, ord_rmw(k)))?),
+                            Sut::AB(v) => Some(cx.must("atomic.swap", || v.swap(i, *b, ord_rmw(k)))?),
                             _ => None,
                         };
                         if let Some(old) = old {
@@ -506,8 +516,8 @@ impl Property for C06 {
                         let got = match &mut sut {
                             Sut::V(v) => cx.must("get", || if matches!(op, Op::Get(_)) { v.get(i) } else { v[i] })?,
                             Sut::B(v) => cx.must("get", || if matches!(op, Op::Get(_)) { v.get(i) } else { v[i] })?,
-                            Sut::A(v) => cx.must("atomic.get", || if matches!(op, Op::Get(_)) { v.get(i, ord(k)) } else { v[i] })?,
-                            Sut::AB(v) => cx.must("atomic.get", || if matches!(op, Op::Get(_)) { v.get(i, ord(k)) } else { v[i] })?,
+                            Sut::A(v) => cx.must("atomic.get", || if matches!(op, Op::Get(_)) { v.get(i, ord_load(k)) } else { v[i] })?,
+                            Sut::AB(v) => cx.must("atomic.get", || if matches!(op, Op::Get(_)) { v.get(i, ord_load(k)) } else { v[i] })?,
                             Sut::Gone => unreachable!(),
                         };
                         cx.check_eq(got, model[i], "get", || format!("get({i})"))?;
